@@ -143,12 +143,12 @@ Proof. split; reflexivity. Qed.
 Lemma delist_payout_neutral c p : is_stock c -> p_recv p = None ->
   equity c (fst (fst (stock_delist p None true))) + snd (fst (stock_delist p None true)) == equity c p.
 Proof. intros H Hr. rewrite !stock_equity by assumption. unfold stock_delist, receivable.
-  destruct (qeq_b (p_qty p) 0) eqn:E; cbn [fst snd set_qty p_last p_qty p_recv]; rewrite Hr; [ring|qnorm; ring]. Qed.
+  destruct (qeq_b (p_qty p) 0) eqn:E; cbn [fst snd p_last p_qty p_recv]; rewrite Hr; [ring|qnorm; ring]. Qed.
 
-Lemma conversion_neutral p ratio price amount : 0 < ratio -> qeq_b (p_qty p) 0 = false ->
-  stock_delist p (Some ratio) true = (set_qty p 0 0, qmul (p_avg p) (p_qty p), Some (price, amount)) ->
-  price * amount == p_avg p * p_qty p /\ amount * (p_last p / ratio) == p_last p * p_qty p.
+Lemma conversion_neutral p ratio cr price amount : 0 < ratio -> qeq_b (p_qty p) 0 = false ->
+  snd (stock_delist p (Some ratio) cr) = Some (price, amount) ->
+  snd (fst (stock_delist p (Some ratio) cr)) == price * amount /\ amount * (p_last p / ratio) == p_last p * p_qty p.
 Proof.
-  intros Hr Hq H. unfold stock_delist in H. rewrite Hq in H. injection H as <- <-. qnorm.
+  intros Hr Hq H. unfold stock_delist in *. rewrite Hq in *. cbn [fst snd] in *. injection H as <- <-. qnorm.
   split; field; lra.
 Qed.
